@@ -131,7 +131,7 @@ def _only_known(case, exclude):
     return True
 
 
-MODE_FINDINGS = ('F01-stray-eoo', 'F02-tagged-any-indef')
+MODE_FINDINGS = ('F01-stray-eoo',)
 
 
 def _passes_definite(case):
@@ -198,5 +198,5 @@ def _f_real10(failure):
     return ir.jdump(ir.canon(T, a)) == ir.jdump(ir.canon(T, b))
 
 
-FINDINGS = {'F01-stray-eoo': _f_eoo, 'F02-tagged-any-indef': _f_any_indef,
+FINDINGS = {'F01-stray-eoo': _f_eoo,
             'F03-optional-empty-record': _f_opt_empty_record, 'F04-real10-float': _f_real10}
